@@ -123,7 +123,10 @@ impl VM {
 			.downcast_ref::<VMImportResolver>()
 			.expect("valid resolver ty");
 		let vmi = &mut *vmi.inner.borrow_mut();
-		(vmi as &mut dyn Any)
+		// The resolver itself has to be downcasted, not the `Rc` around it
+		let resolver: &mut dyn ImportResolver =
+			Rc::get_mut(vmi).expect("import resolver is not shared during configuration");
+		(resolver as &mut dyn Any)
 			.downcast_mut::<FileImportResolver>()
 			.expect("jpaths are not compatible with callback imports!")
 			.add_jpath(path);
